@@ -46,14 +46,21 @@ type wctx struct {
 
 type pool map[string]*wctx
 
-func (p pool) get(s *spec) (*wctx, error) {
+func (p pool) get(s *spec) (*wctx, error) { return p.getKeyed(s, nil) }
+
+// the overlap part's worlds sign with ES256 (nothing in C05 depends on the provider's signing algorithm; it only makes
+// the thousands of token responses of that part cheaper)
+func ovSigningKey() *keys.Key { return keys.Get("c05-op-es256", jose.ES256) }
+
+// getKeyed: a world whose provider signs with sk (nil = the default RS256 key); a pool is used with one key throughout
+func (p pool) getKeyed(s *spec, sk *keys.Key) (*wctx, error) {
 	k := s.cfgKey()
 	if wc, ok := p[k]; ok {
 		return wc, nil
 	}
 	cfg := opdrv.DefaultConfig()
 	cfg.AuthMethodPost, cfg.AuthMethodPrivateKeyJWT, cfg.GrantTypeRefreshToken = s.Post, s.PKJWT, s.Refresh
-	wopt := opdrv.Options{Config: cfg, Caps: s.Caps}
+	wopt := opdrv.Options{Config: cfg, Caps: s.Caps, SigningKey: sk}
 	if s.PermSub {
 		wopt.WrapProvider = opdrv.PermissiveSubject
 	}
@@ -556,6 +563,9 @@ func buildRequest(s *spec, w *opdrv.World, id string, m material) (*request, pro
 		if k != "grant_type" {
 			ownParams = append(ownParams, k)
 		}
+	}
+	if s.Stray != "" && !isTokenOp(s.Op) {
+		f.Set("grant_type", s.Stray)
 	}
 	var p proof
 	if s.Op == opBearer {
